@@ -138,3 +138,100 @@ Example C16_residue_example :
   since_start cs = check_msg ++ trailer a 8 4 3421780262 /\ hw_match a (hw_run a 8 cs) = true /\
   trailer (Algo 16 4129 65535 false false 0) 8 2 10673 = [41; 177].
 Proof. vm_compute. repeat split; reflexivity. Qed.
+
+(* ================================================================== translated source
+   coq/Gen/CrcGen.v is regenerated from the text of /repo/amaranth/lib/crc/__init__.py on every run
+   (translator/unit_crc.py: classes Algorithm and Parameters become records, their methods functions into
+   `option`, None = ValueError).  The theorems below (proofs in Proofs/GenEqCrc.v) say that every regenerated
+   function is the function of Model/Crc.v the theorems above are about, for all parameters, data widths and
+   word lists; `of_algo` / `of_params a d` are the generated records holding the fields of `a` (and d). *)
+From V.Proofs Require Import GenEqCrc.
+From V.Gen Require CrcGen.
+
+(* Algorithm.__init__: the four range checks are algo_ok *)
+Theorem C16_translated_Algorithm_init w p i ri ro x :
+  CrcGen.Algorithm_init w p i ri ro x =
+  if algo_ok (Algo w p i ri ro x) then Some (of_algo (Algo w p i ri ro x)) else None.
+Proof. exact (gen_Algorithm_init_eq w p i ri ro x). Qed.
+Print Assumptions C16_translated_Algorithm_init.
+
+(* Parameters.__init__ / Algorithm.__call__: copy the six fields, check data_width > 0 *)
+Theorem C16_translated_Parameters_init a d :
+  CrcGen.Parameters_init (of_algo a) d = if 0 <? d then Some (of_params a d) else None.
+Proof. exact (gen_Parameters_init_eq a d). Qed.
+Print Assumptions C16_translated_Parameters_init.
+
+Theorem C16_translated_Algorithm_call a d :
+  CrcGen.Algorithm_call (of_algo a) d = if 0 <? d then Some (of_params a d) else None.
+Proof. exact (gen_Algorithm_call_eq a d). Qed.
+Print Assumptions C16_translated_Algorithm_call.
+
+(* Algorithm(...)(data_width) succeeds exactly when params_ok *)
+Theorem C16_translated_constructors a d :
+  match CrcGen.Algorithm_init (cw a) (poly a) (init a) (refin a) (refout a) (xorout a) with
+  | Some g => CrcGen.Algorithm_call g d
+  | None => None
+  end = if params_ok a d then Some (of_params a d) else None.
+Proof. exact (gen_constructors_eq a d). Qed.
+Print Assumptions C16_translated_constructors.
+
+(* the `algorithm` property re-runs Algorithm.__init__ *)
+Theorem C16_translated_Parameters_algorithm a d :
+  CrcGen.Parameters_algorithm (of_params a d) = if algo_ok a then Some (of_algo a) else None.
+Proof. exact (gen_Parameters_algorithm_eq a d). Qed.
+Print Assumptions C16_translated_Parameters_algorithm.
+
+(* Parameters._reflect = int(f"{word:0{n}b}"[::-1], 2); for word < 0 or n < 0 Python raises ValueError *)
+Theorem C16_translated_reflect word n :
+  0 <= word -> 0 <= n -> CrcGen.Parameters__reflect word n = Some (reflect word n).
+Proof. exact (gen_reflect_eq word n). Qed.
+Print Assumptions C16_translated_reflect.
+
+Theorem C16_translated_reflect_raises word n :
+  word < 0 \/ n < 0 -> CrcGen.Parameters__reflect word n = None.
+Proof. exact (gen_reflect_raises word n). Qed.
+Print Assumptions C16_translated_reflect_raises.
+
+(* Parameters.compute, including the ValueError for an out-of-range word; the guard is implied by the
+   constructor checks (C16_translated_compute_ok) *)
+Theorem C16_translated_compute a d data :
+  0 <= cw a -> 0 <= d -> 0 <= init a ->
+  CrcGen.Parameters_compute (of_params a d) data = compute a d data.
+Proof. exact (gen_compute_eq a d data). Qed.
+Print Assumptions C16_translated_compute.
+
+Theorem C16_translated_compute_ok a d data :
+  params_ok a d = true -> CrcGen.Parameters_compute (of_params a d) data = compute a d data.
+Proof. exact (gen_compute_ok a d data). Qed.
+Print Assumptions C16_translated_compute_ok.
+
+(* Parameters.residue *)
+Theorem C16_translated_residue a d :
+  algo_ok a = true -> CrcGen.Parameters_residue (of_params a d) = Some (residue a).
+Proof. exact (gen_residue_eq a d). Qed.
+Print Assumptions C16_translated_residue.
+
+(* Parameters._matrices: Python builds rows of the integers 0 / 1 (zrows = map (map Z.b2z)) *)
+Theorem C16_translated_matrices a d :
+  params_ok a d = true ->
+  CrcGen.Parameters__matrices (of_params a d) = Some (zrows (fst (matrices a d)), zrows (snd (matrices a d))).
+Proof. exact (gen_matrices_eq a d). Qed.
+Print Assumptions C16_translated_matrices.
+
+(* non-vacuity: the regenerated functions run; CRC-16/ARC over three 5-bit words as in C16_compute_example,
+   CRC-3/GSM matrices for 2-bit words, CRC-32/ISO-HDLC residue, an out-of-range word *)
+Example C16_translated_example :
+  params_ok (Algo 16 32773 0 true true 0) 5 = true /\
+  CrcGen.Parameters_compute (of_params (Algo 16 32773 0 true true 0) 5) [19; 0; 31] = Some 57883 /\
+  CrcGen.Parameters_compute (of_params (Algo 16 32773 0 true true 0) 5) [19; 32] = None /\
+  CrcGen.Parameters__reflect 6 5 = Some 12 /\
+  CrcGen.Parameters__matrices (of_params (Algo 3 3 0 false false 7) 2) =
+    Some ([[0; 0; 1]; [1; 1; 0]; [0; 1; 1]], [[1; 1; 0]; [0; 1; 1]]) /\
+  CrcGen.Parameters_residue (of_params (Algo 32 79764919 4294967295 true true 4294967295) 8) = Some 3736805603.
+Proof. vm_compute. repeat split; reflexivity. Qed.
+
+(* default data width of algo() and Parameters(algo) *)
+Theorem C16_translated_default_data_width :
+  CrcGen.Algorithm_call_default_data_width = 8 /\ CrcGen.Parameters_init_default_data_width = 8.
+Proof. exact gen_default_data_width. Qed.
+Print Assumptions C16_translated_default_data_width.
